@@ -69,13 +69,13 @@ def forms(doc, tx, rnd):
     return res
 
 
-GET_FILE = "GET // shared\n  200 any\n"
+GET_FILE = 'GET // shared\n  Path\n  {\n    "zid": 1\n  }\n  200 any\n'
 
 
 def twice_form(doc):
     """one file included from two places (and its flattened equivalent)"""
     def url(p, extra):
-        return {"t": "url", "path": [p], "tags": [], "pathdecl": [], "methods": [], "extra": extra}
+        return {"t": "url", "path": [p, "{zid}"], "tags": [], "pathdecl": [], "methods": [], "extra": extra}
     raw = {"t": "raw", "lines": GET_FILE.rstrip("\n").split("\n"), "label": "GET"}
     flat = doc + [url("zi1", [raw]), url("zi2", [raw])]
     multi = doc + [url("zi1", [inc("shared/get.jst")]), url("zi2", [inc("shared/get.jst")])]
